@@ -194,6 +194,18 @@ def _import_repo():
     return geometer
 
 
+def _reset_library_caches():
+    """Long-lived workers must not carry library state from one configuration to the next: the class-level caches of
+    the epsilon / delta tensors are emptied before every configuration, so that every verdict is a function of the
+    configuration alone and replays identically in a fresh interpreter."""
+    base = sys.modules.get("geometer.base")
+    if base is not None:
+        for cls in ("LeviCivitaTensor", "KroneckerDelta"):
+            c = getattr(getattr(base, cls, None), "_cache", None)
+            if isinstance(c, dict):
+                c.clear()
+
+
 def _run_task(task):
     pid, fam_index, tier, seed, shard, nshards, deadline = task
     import numpy as np
@@ -216,6 +228,7 @@ def _run_task(task):
             if ctx.evals <= 1 and shard == 0:
                 ctx.sample({"family": fam.name, "cfg": cfg})
             try:
+                _reset_library_caches()
                 fam.case(ctx, cfg)
             except Exception as e:  # harness error: never a verdict about the code  # noqa: BLE001
                 return {"fam": fam.name, "shard": shard, "internal_error": traceback.format_exc(), "cfg": jsonable(cfg)}
@@ -311,6 +324,7 @@ def replay_file(path, quiet=False):
     fam = next(f for f in FAMILIES[pid] if f.name == body["family"])
     ctx = Ctx(pid, fam.name, body.get("tier", "quick"), body.get("seed", 0))
     ctx.idx, ctx.cfg = 0, body["cfg"]
+    _reset_library_caches()
     fam.case(ctx, _tuplify(body["cfg"]))
     return pid, ctx.fails
 
